@@ -1296,6 +1296,26 @@ let rec map2 f l m =
                | [] -> []
                | y :: s -> (f x y) :: (map2 f r s))
 
+(** val cmp_cells : cmpop -> sval -> sval list -> sval list **)
+
+let cmp_cells op v d =
+  map (fun c -> VBool (eval_cmp op c v)) d
+
+(** val div_cells_sc : sval -> sval list -> sval list **)
+
+let div_cells_sc v d =
+  map (fun p -> VFlt (fdiv (to_flt p) (to_flt v))) d
+
+(** val div_cells : sval list -> sval list -> sval list **)
+
+let div_cells a b =
+  map2 (fun p q0 -> VFlt (fdiv (to_flt p) (to_flt q0))) a b
+
+(** val coerce_cells : dtype -> sval list -> sval list **)
+
+let coerce_cells dt d =
+  map (coerce dt) d
+
 type store = (var * value) list
 
 (** val get : store -> var -> value **)
@@ -1474,7 +1494,7 @@ let assign_target t v st =
               bind (chk ((&&) (in_range j c) (Z.eqb (zlen col) n)) s)
                 (fun _ -> Ok
                 (set st a (Ar (A2 (dt, n, c,
-                  (set_col n c j d (map (coerce dt) col)))))))
+                  (set_col n c j d (coerce_cells dt col)))))))
             | A2 (_, _, _, _) -> Er (OOB s))
          | _ -> Er (OOB s)))
 
@@ -1614,8 +1634,7 @@ let rec exec env fuel c st =
      | SCmpArr (x, op, b, e) ->
        (match bind (get_arr st b) (fun r ->
                 bind (eval e st) (fun v -> Ok
-                  (set st x (Ar (A1 (DBool,
-                    (map (fun c0 -> VBool (eval_cmp op c0 v)) (adata r)))))))) with
+                  (set st x (Ar (A1 (DBool, (cmp_cells op v (adata r)))))))) with
         | Ok st' -> Normal st'
         | Er e0 -> Err e0)
      | SArgsort (x, b) ->
@@ -1639,10 +1658,7 @@ let rec exec env fuel c st =
                     (chk
                       ((&&) (Z.eqb (alen ra) (alen rb))
                         (Z.eqb (acols ra) (acols rb))) s) (fun _ ->
-                    let d =
-                      map2 (fun p q0 -> VFlt (fdiv (to_flt p) (to_flt q0)))
-                        (adata ra) (adata rb)
-                    in
+                    let d = div_cells (adata ra) (adata rb) in
                     Ok
                     (set st x (Ar
                       (match ra with
@@ -1653,10 +1669,7 @@ let rec exec env fuel c st =
      | SArrDivSc (x, a, e) ->
        (match bind (get_arr st a) (fun ra ->
                 bind (eval e st) (fun v ->
-                  let d =
-                    map (fun p -> VFlt (fdiv (to_flt p) (to_flt v)))
-                      (adata ra)
-                  in
+                  let d = div_cells_sc v (adata ra) in
                   Ok
                   (set st x (Ar
                     (match ra with
@@ -3374,6 +3387,11 @@ let k__overlap_split =
 let all_kernels =
   k_jitrestrict :: (k_jitrestrict_with_count :: (k_jitvaluefrom :: (k_jitcount :: (k_jitin_interval :: (k_jitremove_nan :: (k_jitthreshold :: (k__jitbin_array :: (k_jitintersect :: (k_jitunion :: (k_jitdiff :: (k_jitunion_isets :: (k__jitfix_iset :: (k__jitcontinuous_perievent :: (k__cross_correlogram :: (k__overlap_split :: [])))))))))))))))
 
+(** val run0 : nat -> func -> value list -> outcome **)
+
+let run0 fuel k args =
+  run all_kernels fuel k args
+
 (** val q_ticks : q -> z option **)
 
 let q_ticks q0 =
@@ -3401,5 +3419,5 @@ let q_red =
 
 let run_kernel fuel name args =
   match find_func all_kernels name with
-  | Some g -> Some (run all_kernels fuel g args)
+  | Some g -> Some (run0 fuel g args)
   | None -> None
